@@ -92,6 +92,8 @@ def run(chk, tier):
         outputs.variant_maps(chk, F, 'R12.3.composite', cfg)
         outputs.conversion_flavour(chk, F, 'R12.6', cfg)
         outputs.tuple_slots(chk, F, 'R12.8', cfg)
+        # R12.9 Vec composites: one output element per stored element or the whole request fails (an exhausted single-use leaf is never skipped)
+        outputs.vec_traversals(chk, F, 'R12.9', cfg)
         # ---- R12.4
         leaks.census(chk, F, 'R12.4', cfg)
         if cfg != 'nostd':
